@@ -489,6 +489,6 @@ fn main() {
         rep,
         "case = (a) one stress run: a writer producing 5-25 commits (each adding a marker document so every commit is a distinct id set) with deletes, merges, GC, rollbacks and final shutdown, while 1-3 reader threads (same Index, second Index on the same directory, OnCommitWithDelay) reload and observe, and hold searchers that are re-fingerprinted during the run and after the writer is gone; every observation must equal one committed model state, not older than the commits completed before the reload started, not newer than those started, monotone per reader; on MonDir, RamDirectory and MmapDirectory. (b) one forced schedule: a loading reader parked between reading meta.json and opening its k-th segment file while the writer commits, merges and GCs. Non-trivial = observations overlapped a commit and >=2 distinct commits were seen / the reader was actually parked.",
         ctx.scale(30, 60),
-        &["commit identification relies on unique document ids and a marker document per commit", "overlapping reload() calls on one reader are not ordered (DESIGN.md §7 C05 scope decision)"],
+        &["commit identification relies on unique document ids and a marker document per commit", "every reader flavour, including auto-reload mixed with manual reloads, must be monotone (DESIGN.md §7 C05, revised scope)"],
     );
 }
